@@ -205,7 +205,7 @@ fn valid_level() -> impl Strategy<Value = f64> {
 pub fn run(run: &mut Run) {
     run.technique = "proptest random search with shrinking over f64/f32 levels (special values, random bit patterns, neighbours of 0 and 1) and pairs; oracle = constructor outcome rule and algebraic laws".into();
     run.rule = "levels drawn from special values (0, ±0, 1, neighbours, subnormals, NaN payloads, ±inf, negatives, > 1), random bit patterns and uniform (0,1) x 4 panicking constructors + TryFrom<f64>/<f32>; pairs of valid confidences of all 4x4 constructor combinations for the ordering laws; non-trivial: every case; distinct = bit pattern(s)".into();
-    let n = run.tier.pick(20_000, 400_000);
+    let n = run.tier.pick(100_000, 4_000_000);
     run.prop("level", n, (any_level(), any::<bool>()).prop_map(|(x, f32)| LevelCase { x: X(x), f32 }), level_case);
     run.prop("pair", n, (0u8..4, valid_level(), 0u8..4, valid_level()).prop_map(|(k1, l1, k2, l2)| PairCase { k1, l1: X(l1), k2, l2: X(l2) }), pair_case);
     // fixed facts
